@@ -191,7 +191,10 @@ class NearJump(X86Instruction):
     """jmp imm32"""
 
     target = Operand("target", str)
-    syntax = Syntax(["jmp", " ", target])
+    # Lower precedence than 'jmp r/m64' (priority 2): a register name is
+    # also accepted as an identifier, and 'jmp rax' must not become a jump
+    # to a symbol called rax.
+    syntax = Syntax(["jmp", " ", target], priority=3)
     tokens = [OpcodeToken, Imm32Token]
     patterns = {"opcode": 0xE9}
 
